@@ -60,7 +60,9 @@ def draw_clocks(draw, min_half=1):
             first = next(iter(cfg.values()))
             if half % first["half"] == 0:
                 phase = first["half"] if first["phase"] is None else first["phase"]      # edges coincide
-        cfg[d] = {"half": half, "phase": phase, "edge": "neg" if draw(INT(0, 4)) == 0 else "pos"}
+        # (the reset is never asserted here, so whether it is synchronous or asynchronous must not show anywhere)
+        cfg[d] = {"half": half, "phase": phase, "edge": "neg" if draw(INT(0, 4)) == 0 else "pos",
+                  "async": draw(INT(0, 2)) == 0}
     return cfg
 
 
@@ -130,7 +132,7 @@ class Built:
 
 def build(design, *, adder_process=False, counter_process=False, mux_process=False):
     prog = design["prog"]
-    dcfg = {d: {"clk_edge": design["clocks"][d]["edge"]} for d in DOMS}
+    dcfg = {d: {"clk_edge": design["clocks"][d]["edge"], "async_reset": bool(design["clocks"][d].get("async"))} for d in DOMS}
     top = Module()
     b = build_program(prog, domains=dcfg, module=top)
     sub = Module()
@@ -557,6 +559,7 @@ def single_body(ctx, case):
     if any(c["phase"] is None for c in design["clocks"].values()): keys.append("single:default-phase")
     if any(c["phase"] == 0 for c in design["clocks"].values()): keys.append("single:explicit-zero-phase")
     if any(c["edge"] == "neg" for c in design["clocks"].values()): keys.append("single:negedge-domain")
+    if any(c["edge"] == "neg" and c.get("async") for c in design["clocks"].values()): keys.append("single:negedge-domain-with-asynchronous-reset")
     if any(op[0] == "delay" for op in case["script"]): keys.append("single:delay")
     if any(op[0] == "edge" for op in case["script"]): keys.append("single:posedge-negedge")
     ctx.note(case, stats["sampled"] or stats["get_after_set"], *keys, evals=len(log))
@@ -728,5 +731,5 @@ def parts(tier):
 REQUIRED = ["perm:multi-runnable", "perm:orders-differed", "perm:changed-process", "perm:tick-sample-process", "perm:default-then-override-process", "perm:memory-written",
             "perm:several-testbenches", "perm:equal-periods", "single:coincident", "single:sampled",
             "single:cross_domain_sample", "single:get_after_set", "single:default-phase", "single:explicit-zero-phase",
-            "single:negedge-domain", "single:delay", "single:posedge-negedge", "single:watch", "lockstep:checked",
+            "single:negedge-domain", "single:negedge-domain-with-asynchronous-reset", "single:delay", "single:posedge-negedge", "single:watch", "lockstep:checked",
             "replace:inputs-driven-and-observed", "handoff:observer_before_writer", "handoff:writer_returns_after_last_write"]
